@@ -34,6 +34,9 @@ const (
 	ATableInit             // table.init elem1 -> slot A (one entry), traps if dropped
 	AElemDrop              // elem.drop elem1
 	ATailCall              // return_call f_A(acc + B)   (only when TailCalls)
+	AStdout                // fd_write(1, cell A), acc += errno (WASI atoms: not modelled, C11 only)
+	AOpen                  // path_open(3,"f",O_CREAT); acc += errno*1000 + fd
+	AClose                 // fd_close(last opened fd); acc += errno
 )
 
 const (
@@ -63,7 +66,7 @@ type Atom struct {
 }
 
 func (a Atom) String() string {
-	n := []string{"store", "storeacc", "loadacc", "gadd", "call", "callimp", "calli", "host", "trap", "grow", "rec", "tableset", "exit", "meminit", "datadrop", "tableinit", "elemdrop", "tailcall"}[a.K]
+	n := []string{"store", "storeacc", "loadacc", "gadd", "call", "callimp", "calli", "host", "trap", "grow", "rec", "tableset", "exit", "meminit", "datadrop", "tableinit", "elemdrop", "tailcall", "stdout", "open", "close"}[a.K]
 	return fmt.Sprintf("%s(%d,%d)", n, a.A, a.B)
 }
 
@@ -108,6 +111,7 @@ type Opts struct {
 	ImportFrom         string
 	TailCalls          bool
 	HostTags           int
+	WASI               bool // stdout / path_open / fd_close atoms (no model support)
 }
 
 // Generate draws a plan from the tape.
@@ -126,7 +130,10 @@ func Generate(t *tape.Tape, o Opts) *Plan {
 		for j := 0; j < na; j++ {
 			val++
 			// weights: store, storeacc, loadacc, gadd, call, callimp, calli, host, trap, grow, rec, tableset, exit, meminit, datadrop, tableinit, elemdrop, tailcall
-			w := []int{4, 3, 2, 3, 4, 0, 0, 0, 0, 0, 0, 0, 0, 0, 0, 0, 0, 0}
+			w := []int{4, 3, 2, 3, 4, 0, 0, 0, 0, 0, 0, 0, 0, 0, 0, 0, 0, 0, 0, 0, 0}
+			if o.WASI {
+				w[AStdout], w[AOpen], w[AClose] = 3, 2, 2
+			}
 			if i == n-1 {
 				w[ACall] = 0
 			}
@@ -163,7 +170,7 @@ func Generate(t *tape.Tape, o Opts) *Plan {
 			switch k {
 			case AStore:
 				a.A, a.B = int32(t.Choose(NCells)), val
-			case AStoreAcc, ALoadAcc:
+			case AStoreAcc, ALoadAcc, AStdout:
 				a.A = int32(t.Choose(NCells))
 			case AGAdd:
 				a.A, a.B = int32(t.Choose(NGlobals)), int32(1+t.Choose(9))
@@ -217,17 +224,18 @@ func Generate(t *tape.Tape, o Opts) *Plan {
 
 // Function indices in the emitted module.
 type Layout struct {
-	Host, ProcExit uint32
-	Imp0           uint32 // first imported plan function
-	F0             uint32 // first plan function
-	Rec0           uint32
-	Odd            uint32
-	TypeGuest      uint32
+	Host, ProcExit             uint32
+	FdWrite, PathOpen, FdClose uint32
+	Imp0                       uint32 // first imported plan function
+	F0                         uint32 // first plan function
+	Rec0                       uint32
+	Odd                        uint32
+	TypeGuest                  uint32
 }
 
 func (p *Plan) Layout() Layout {
-	l := Layout{Host: 0, ProcExit: 1, Imp0: 2}
-	l.F0 = 2 + uint32(p.NImports)
+	l := Layout{Host: 0, ProcExit: 1, FdWrite: 2, PathOpen: 3, FdClose: 4, Imp0: 5}
+	l.F0 = 5 + uint32(p.NImports)
 	l.Rec0 = l.F0 + uint32(len(p.Funcs))
 	l.Odd = l.Rec0 + 2
 	return l
@@ -244,6 +252,10 @@ func (p *Plan) Encode() []byte {
 	l := p.Layout()
 	m.ImportFunc("env", "h", []wasmb.ValType{wasmb.I32, wasmb.I32}, i32)
 	m.ImportFunc("wasi_snapshot_preview1", "proc_exit", i32, nil)
+	w32, w64 := wasmb.I32, wasmb.I64
+	m.ImportFunc("wasi_snapshot_preview1", "fd_write", []wasmb.ValType{w32, w32, w32, w32}, i32)
+	m.ImportFunc("wasi_snapshot_preview1", "path_open", []wasmb.ValType{w32, w32, w32, w32, w32, w64, w64, w32, w32}, i32)
+	m.ImportFunc("wasi_snapshot_preview1", "fd_close", i32, i32)
 	for i := 0; i < p.NImports; i++ {
 		m.ImportFunc(p.ImportFrom, fmt.Sprintf("f%d", i), i32, i32)
 	}
@@ -308,6 +320,16 @@ func (p *Plan) Encode() []byte {
 				c.I32Const(a.A).I32Const(0).I32Const(1).TableInit(1, 0)
 			case AElemDrop:
 				c.ElemDrop(1)
+			case AStdout:
+				c.I32Const(0x100).I32Const(8 * a.A).I32Store(0)
+				c.I32Const(0x104).I32Const(4).I32Store(0)
+				c.LocalGet(1).I32Const(1).I32Const(0x100).I32Const(1).I32Const(0x110).Call(l.FdWrite).I32Add().LocalSet(1)
+			case AOpen:
+				c.I32Const(0x130).I32Const(-1).I32Store(0)
+				c.I32Const(3).I32Const(0).I32Const(0x120).I32Const(1).I32Const(1).I64Const(0x42).I64Const(0x42).I32Const(0).I32Const(0x130).Call(l.PathOpen)
+				c.I32Const(1000).I32Mul().I32Const(0x130).I32Load(0).I32Add().LocalGet(1).I32Add().LocalSet(1)
+			case AClose:
+				c.LocalGet(1).I32Const(0x130).I32Load(0).Call(l.FdClose).I32Add().LocalSet(1)
 			}
 			if tail {
 				break
@@ -360,7 +382,7 @@ func (p *Plan) Encode() []byte {
 		all = append(all, l.F0+uint32(i))
 	}
 	m.Elems = append(m.Elems, wasmb.Elem{Mode: 2, Funcs: all})
-	m.Datas = []wasmb.Data{{Passive: true, Bytes: []byte{0x0D, 0xF0, 0xED, 0x5E}}}
+	m.Datas = []wasmb.Data{{Passive: true, Bytes: []byte{0x0D, 0xF0, 0xED, 0x5E}}, {Offset: wasmb.ConstI32(0x120), Bytes: []byte("f")}}
 	m.DataCount = true
 	return m.Encode()
 }
